@@ -10,6 +10,7 @@ use std::sync::atomic::{
 /// Unlocked: false; locked: true
 #[inline(always)]
 pub fn lock(flag: &AtomicBool) {
+    #[cfg(feature = "verif")] crate::verif::point(crate::verif::SYNC_LOCK_ENTER);
     // attempt to lock -- spinning for 10 times, relaxing the CPU between attempts
     if flag.compare_exchange_weak(false, true, Acquire, Relaxed).is_ok() { return } else { std::hint::spin_loop(); std::hint::spin_loop(); std::hint::spin_loop(); std::hint::spin_loop() }
     if flag.compare_exchange_weak(false, true, Acquire, Relaxed).is_ok() { return } else { std::hint::spin_loop(); std::hint::spin_loop(); std::hint::spin_loop(); std::hint::spin_loop() }
@@ -21,6 +22,7 @@ pub fn lock(flag: &AtomicBool) {
     if flag.compare_exchange_weak(false, true, Acquire, Relaxed).is_ok() { return } else { std::hint::spin_loop(); std::hint::spin_loop(); std::hint::spin_loop(); std::hint::spin_loop() }
     if flag.compare_exchange_weak(false, true, Acquire, Relaxed).is_ok() { return } else { std::hint::spin_loop(); std::hint::spin_loop(); std::hint::spin_loop(); std::hint::spin_loop() }
     if flag.compare_exchange_weak(false, true, Acquire, Relaxed).is_ok() { return } else { std::hint::spin_loop(); std::hint::spin_loop(); std::hint::spin_loop(); std::hint::spin_loop() }
+    #[cfg(feature = "verif")] { while flag.compare_exchange(false, true, Acquire, Relaxed).is_err() { crate::verif::spin(crate::verif::SYNC_LOCK_SPIN); } if true { return } }
     // no deal -- fallback without using the _weak version of compare_exchange
     while flag.compare_exchange(false, true, Acquire, Relaxed).is_err() { std::hint::spin_loop(); std::hint::spin_loop(); std::hint::spin_loop(); std::hint::spin_loop(); std::hint::spin_loop() }
 }
@@ -28,5 +30,6 @@ pub fn lock(flag: &AtomicBool) {
 /// Releases any locks, returning immediately
 #[inline(always)]
 pub fn unlock(flag: &AtomicBool) {
+    #[cfg(feature = "verif")] crate::verif::point(crate::verif::SYNC_UNLOCK);
     flag.store(false, Release);
 }
